@@ -614,10 +614,17 @@ impl UnifiedCommandExecutor {
     fn execute_string(&self, db: usize, cmd: StringCommand) -> Result<RespFrame> {
         match cmd {
             StringCommand::Set { key, value, options } => {
-                // Validate mutually exclusive options
-                if options.nx && options.xx {
-                    return Ok(RespFrame::error("ERR NX and XX options are mutually exclusive"));
+                // NX and XX exclude each other, and so do KEEPTTL and EX/PX (as the direct command: a syntax error)
+                if (options.nx && options.xx) || (options.keepttl && options.expiration.is_some()) {
+                    return Ok(RespFrame::error("ERR syntax error"));
                 }
+                
+                // KEEPTTL: the new value keeps the deadline of the old one
+                let expiration = if options.keepttl {
+                    self.storage.ttl(db, &key)?
+                } else {
+                    options.expiration
+                };
                 
                 // Handle GET option (return old value)
                 let old_value = if options.get {
@@ -629,7 +636,7 @@ impl UnifiedCommandExecutor {
                 // Execute SET with proper atomicity
                 let success = if options.nx {
                     // Use atomic operation to prevent race conditions
-                    match options.expiration {
+                    match expiration {
                         Some(exp) => self.storage.set_string_nx_ex(db, key, value, exp)?,
                         None => self.storage.set_string_nx(db, key, value)?,
                     }
@@ -638,14 +645,14 @@ impl UnifiedCommandExecutor {
                     if !self.storage.exists(db, &key)? {
                         false
                     } else {
-                        match options.expiration {
+                        match expiration {
                             Some(exp) => self.storage.set_string_ex(db, key, value, exp).map(|_| true)?,
                             None => self.storage.set_string(db, key, value).map(|_| true)?,
                         }
                     }
                 } else {
                     // Regular SET
-                    match options.expiration {
+                    match expiration {
                         Some(exp) => self.storage.set_string_ex(db, key, value, exp).map(|_| true)?,
                         None => self.storage.set_string(db, key, value).map(|_| true)?,
                     }
